@@ -24,8 +24,13 @@ package metrics
 //@   ensures[C19] imp(err != nil, forallA(a, a.total == old(a.total) && a.correct == old(a.correct)))
 //@   ensures[C19] imp(err == nil, c.total == old(c.total) + dim(yp, 0) && c.correct == old(c.correct) + matchCount(yp, yt))
 //@   ensures[C19] forallA(a, a == c || (a.total == old(a.total) && a.correct == old(a.correct)))
-// (the disjunct only names the count so that its defining axiom is instantiated; it is false by 0 <= matchCount)
-//@   ensures[C19] accInv(c) || matchCount(yp, yt) < 0
+// COUNT, machine-checked: the indicator tensor eq has 0/1 elements, so its sum is the number of its one-elements (lemma
+// sumBinary of cputensor), between 0 and the number of elements, which for a rank-1 tensor is dim 0
+//@   have isPlusFn(plusFn())
+//@   have eq != nil && published(eq) && rank(eq) == 1 && dim(eq, 0) == dim(yp, 0) && leaves01(eq)
+//@   have tsum(eq) == real(tOnes(eq)) && 0 <= tOnes(eq) && tOnes(eq) <= cnt(tA(eq), 0, len(eq.dims)) @uses sumBinary
+//@   have len(eq.dims) == 1 && cnt(tA(eq), 0, len(eq.dims)) == dim(eq, 0) @uses dimsLink, cntStep
+//@   ensures[C19] accInv(c)
 
 //@ func Accuracy.Result
 //@   public
